@@ -218,6 +218,27 @@ class Model:
             for t in st.targets:
                 if isinstance(t, ast.Name):
                     m.assigns.setdefault(t.id, []).append(st.value)
+                elif isinstance(t, ast.Subscript) and \
+                        isinstance(t.value, ast.Name):
+                    # X[k] = v at module level: X is built in steps, its
+                    # first value is not its value (modeval evaluates these)
+                    m.assigns.setdefault(t.value.id, []).append(st)
+        elif isinstance(st, ast.AnnAssign) and st.value is not None and \
+                isinstance(st.target, ast.Name):
+            m.assigns.setdefault(st.target.id, []).append(st.value)
+        elif isinstance(st, ast.AugAssign) and \
+                isinstance(st.target, ast.Name):
+            m.assigns.setdefault(st.target.id, []).append(st)
+        elif isinstance(st, ast.Expr) and isinstance(st.value, ast.Call) \
+                and isinstance(st.value.func, ast.Attribute) and \
+                isinstance(st.value.func.value, ast.Name) and \
+                st.value.func.attr in ('append', 'extend', 'insert',
+                                       'update', 'add', 'setdefault', 'pop',
+                                       'remove', 'clear', 'sort', 'reverse',
+                                       'discard'):
+            nm = st.value.func.value.id
+            if nm in m.assigns:
+                m.assigns[nm].append(st)
         elif isinstance(st, (ast.If, ast.Try)):
             for s2 in ast.iter_child_nodes(st):
                 if isinstance(s2, ast.stmt):
